@@ -398,6 +398,15 @@ extern int total_queries;
     const UChar *string_val = (const UChar *) sqlite3_column_text16(stmt, col); \
     if (string_val == NULL) { \
         dest = NULL; \
+        /* \
+         * a NULL result stands for an SQL NULL, but also for a failure to allocate the converted text.  In that case \
+         * the statement is reset at once: reset later, inside another transaction, it would roll that one back. \
+         */ \
+        if (sqlite3_errcode(sqlite3_db_handle(stmt)) == SQLITE_NOMEM) { \
+            (void) sqlite3_reset(stmt); \
+            SET_RESULT(CIF_MEMORY_ERROR); \
+            goto onerr; \
+        } \
     } else { \
         size_t value_bytes = (size_t) sqlite3_column_bytes16(stmt, col); \
         int32_t value_chars; \
@@ -421,6 +430,11 @@ extern int total_queries;
     const char *string_val = (const char *) sqlite3_column_text(stmt, col); \
     if (string_val == NULL) { \
         dest = NULL; \
+        if (sqlite3_errcode(sqlite3_db_handle(stmt)) == SQLITE_NOMEM) { \
+            (void) sqlite3_reset(stmt); \
+            SET_RESULT(CIF_MEMORY_ERROR); \
+            goto onerr; \
+        } \
     } else { \
         size_t value_bytes = (size_t) sqlite3_column_bytes(stmt, col); \
         dest = (char *) malloc(value_bytes + 1); \
